@@ -75,10 +75,11 @@ typedef struct {
     int fail_create_at;             /* k-th pthread_create returns EAGAIN (1-based, 0=never) */
     int fail_init_at;               /* k-th mutex/cond init returns ENOMEM (1-based, 0=never) */
     long step_cap;
+    long fair_bound;                /* consecutive picks of one thread (others enabled) before it is treated as yielding */
     const uint8_t* decisions; int ndecisions;  /* explicit decisions: replay exactly (mod n), then 0 */
 } SchedCfg;
 typedef struct {
-    long steps, switches, choices, threads_created, spurious_fired, create_failed, init_failed;
+    long steps, switches, choices, threads_created, spurious_fired, create_failed, init_failed, fair_forced;
     uint64_t signature;
 } SchedStats;
 void sim_sched_cfg_from_plan(SchedCfg* c, const Plan* p);
@@ -116,6 +117,14 @@ size_t sim_alloc_peak_bytes(void);
 long   sim_alloc_live_blocks(void);
 const char* sim_alloc_check(void);           /* NULL ok, else description (canary smashed, bad free, ...) */
 void   sim_alloc_describe_live(char* buf, size_t n);
+/* libc allocator seam (--wrap): armed only around the call under test */
+void   sim_wrap_arm(long fail1, long fail2);
+void   sim_wrap_disarm(void);
+void   sim_wrap_reset(void);
+long   sim_wrap_calls(void);
+long   sim_wrap_failed(void);
+long   sim_wrap_live(void);
+extern uint64_t g_sim_root;
 /* guarded caller buffers: exact size, poisoned/canaried on both sides */
 void*  sim_buf_new(size_t n);
 void   sim_buf_free(void* p);
